@@ -94,6 +94,17 @@ Theorem C04_scalars_in_lists_and_maps_core4 :
     exists warns, parse_model cls numcanon holo_ok strict (lines_of text) = PRDoc d [] warns /\ Forall TokRound4.advisory4 warns.
 Proof. exact TokRound4Ex.core4_shape_check_sound. Qed.
 
+(* ALL FOUR POSITIONS, text level: every scalar of a core4 document (assignment, META, list item at any nesting depth,
+   inline-map value) keeps value and kind through the emitted text *)
+From OV Require Rt.LexLink4Text Rt.LexLink4.
+Theorem C04_scalars_survive_text_core4 :
+  forall cls numcanon holo_ok strict sp d,
+    TokRound4.core4_doc d = true -> LexLink4.lex_safe4_doc d = true ->
+    TokRound4.nums_ok4_l numcanon TokRound2Ex.ex_idnum (dsections d) ->
+    Forall (TokRound4.field_num_ok4 numcanon TokRound2Ex.ex_idnum) (dmeta d) ->
+    exists warns, parse_model cls numcanon holo_ok strict (lines_of (emit sp d)) = PRDoc d [] warns /\ Forall TokRound4.advisory4 warns.
+Proof. exact LexLink4.text_roundtrip_core4. Qed.
+
 (* ---- source-text pins (generated by harness/pinsets.py) ---- *)
 (* every function of these modules is, text for text (comments and docstrings excluded), the one the models of this
    property were written against and validated against: harness/translate/srcdigest_t.py, Src/Pin_*.v *)
